@@ -394,6 +394,9 @@ Definition is_plug (i : Z) (e : event) : bool :=
 Definition is_unpl (i : Z) (e : event) : bool :=
   match e with EUnplug _ y => Z.eqb (sid y) i | _ => false end.
 
+Definition is_rec (ts : Z) (e : event) : bool :=
+  match e with ERecompute u => Z.eqb u ts | _ => false end.
+
 Definition zrange (n : Z) : list Z := map Z.of_nat (seq 0 (Z.to_nat n)).
 Lemma zrange_succ n : 0 <= n -> zrange (n + 1) = zrange n ++ [n].
 Proof.
@@ -440,6 +443,18 @@ Proof.
 Qed.
 Lemma max_ts_nonneg l : 0 <= max_ts l.
 Proof. unfold max_ts. induction l; simpl; lia. Qed.
+
+Lemma max_ts_attained l :
+  l <> [] -> (forall e, In e l -> 0 <= ev_horizon e) -> exists e, In e l /\ ev_horizon e = max_ts l.
+Proof.
+  unfold max_ts. induction l as [|a r IH]; [congruence|]. intros _ H. simpl.
+  destruct r as [|b r'].
+  - exists a. split; [left; auto|]. simpl. specialize (H a (or_introl eq_refl)). lia.
+  - destruct IH as (e & Ie & Ee); [discriminate|intros; apply H; right; auto|].
+    destruct (Z_le_gt_dec (ev_horizon a) (fold_right (fun e m => Z.max (ev_horizon e) m) 0 (b :: r'))).
+    + exists e. split; [right; auto|]. rewrite Ee. lia.
+    + exists a. split; [left; auto|]. lia.
+Qed.
 
 Section C01.
   Variables N V Sch : Type.
@@ -514,11 +529,13 @@ Section C01.
     i_occ1 : forall s y, occ_get s (occ st) = Some y ->
         In y sessions /\ s_station y = s /\ cnt (is_unpl (sid y)) pend = 1%nat;
     i_occ2 : forall x, In x sessions -> cnt (is_unpl (sid x)) pend = 1%nat ->
-        occ_get (s_station x) (occ st) = Some x }.
+        occ_get (s_station x) (occ st) = Some x;
+    (* given Recompute events are neither lost nor duplicated *)
+    i_cons3 : forall ts, (cnt (is_rec ts) pend + cnt (is_rec ts) (map snd (hist st)) = cnt (is_rec ts) evs)%nat }.
 
   Lemma Inv_weaken t t' pend st : t <= t' -> Inv t pend st -> Inv t' pend st.
   Proof.
-    intros L [A B C D E F]. constructor; auto.
+    intros L [A B C D E F G3]. constructor; auto.
     intros u e I. destruct (B u e I) as (G & H & K). repeat split; auto. lia.
   Qed.
 
@@ -564,7 +581,7 @@ Section C01.
   Ltac red_st := cbn [iter hist resolve last_upd calls occ_log num queue occ ev_hist log_event set_queue
                        set_occ set_flags set_num set_iter log_call log_occ set_ev_hist] in *.
   Hint Rewrite @cnt_app @cnt_cons @cnt_nil cnt_q_insert map_app map_cons : cntdb.
-  Ltac cnts := autorewrite with cntdb in *; cbn [snd fst map is_plug is_unpl] in *; autorewrite with cntdb in *;
+  Ltac cnts := autorewrite with cntdb in *; cbn [snd fst map is_plug is_unpl is_rec] in *; autorewrite with cntdb in *;
                rewrite ?Z.eqb_refl in *; cbv iota in *.
 
   (* processing the first pending event of period t *)
@@ -639,6 +656,7 @@ Section C01.
           destruct (Z.eq_dec (s_station z) (s_station x)) as [Es|Ds].
           -- rewrite Es in Oz. congruence.
           -- rewrite occ_get_set_other; auto.
+      + intros ts0. pose proof (i_cons3 _ _ _ I ts0) as C. cnts. lia.
     - (* ---------------- Unplug ---------------- *)
       destruct Ge as (Ix & Ed). simpl in Hts.
       destruct (session_props x Ix) as (Iev & Ist & R).
@@ -675,6 +693,7 @@ Section C01.
           -- rewrite Es in Oz. rewrite Ox in Oz. inversion Oz; subst z.
              rewrite Z.eqb_refl in E. discriminate.
           -- rewrite occ_get_remove_other; auto.
+      + intros ts0. pose proof (i_cons3 _ _ _ I ts0) as C. cnts. lia.
     - (* ---------------- Recompute ---------------- *)
       rewrite process_recompute_eq. cbn [log_event].
       eexists. split; [reflexivity|]. red_st.
@@ -689,6 +708,7 @@ Section C01.
         simpl is_plug in *. simpl is_unpl in *. lia.
       + intros s y Oy. destruct (i_occ1 _ _ _ I _ _ Oy) as (Iy & Sy & Cy). repeat split; auto.
       + intros z Iz Cz. apply (i_occ2 _ _ _ I); auto.
+      + intros ts0. pose proof (i_cons3 _ _ _ I ts0) as C. cnts. lia.
   Qed.
 
   (* all events of period t, in queue order *)
@@ -820,6 +840,7 @@ Section C01.
       + intros s y H. rewrite occ_get_nil in H. discriminate.
       + intros x Ix. rewrite cnt_q_of_list, cnt_false; [discriminate|].
         intros e Ie. pose proof (valid_in _ Ie) as Ve. destruct e; simpl in *; auto. contradiction.
+      + intros ts0. simpl. rewrite cnt_nil, cnt_q_of_list. lia.
     - apply sorted_q_of_list.
     - apply Forall_forall. intros e Ie. apply (proj1 (in_q_of_list _ _)) in Ie. pose proof (valid_in _ Ie) as Ve.
       destruct e; simpl in *; solve [lia|contradiction].
@@ -867,7 +888,7 @@ Section C01.
     { destruct rest as [|h r]; [constructor|]. apply sorted_tail_gt; auto. }
     assert (I0 : Inv t (cur ++ queue (set_queue N V st rest)) (set_queue N V st rest)).
     { red_st. rewrite <- Eq. apply Inv_weaken with (t := t - 1); [lia|].
-      destruct (l_inv _ L) as [A B C D E F]. constructor; auto. }
+      destruct (l_inv _ L) as [A B C D E F G3]. constructor; auto. }
     destruct (process_all_ok t cur (set_queue N V st rest) eq_refl I0 Sc Tc Sr Gr')
       as (st1 & P1 & I1 & It1 & H1 & S1 & G1 & R1 & E1 & C1 & O1 & N1).
     exists st1. split; [|auto].
@@ -894,7 +915,7 @@ Section C01.
     { destruct rest as [|h r]; [constructor|]. apply sorted_tail_gt; auto. }
     assert (I0 : Inv t (cur ++ queue (set_queue N V st rest)) (set_queue N V st rest)).
     { red_st. rewrite <- Eq. apply Inv_weaken with (t := t - 1); [lia|].
-      destruct (l_inv _ L) as [A B C D E F]. constructor; auto. }
+      destruct (l_inv _ L) as [A B C D E F G3]. constructor; auto. }
     destruct (process_all_ok t cur (set_queue N V st rest) eq_refl I0 Sc Tc Sr Gr')
       as (st1 & P1 & I1 & It1 & H1 & S1 & G1 & R1 & E1 & C1 & O1 & N1).
     red_st.
@@ -917,10 +938,10 @@ Section C01.
       2:{ right. do 2 eexists. split; [reflexivity|]. right; right. eauto. }
       left. eexists. split; [reflexivity|]. red_st. split; [|rewrite It2; reflexivity].
       assert (I2 : Inv t (queue st1) st2).
-      { destruct I1 as [A B C D E F]. constructor; rewrite ?H2, ?O2; auto. }
+      { destruct I1 as [A B C D E F G3]. constructor; rewrite ?H2, ?O2; auto. }
       constructor; red_st; rewrite ?It2, ?Q2, ?O2, ?H2, ?OL2.
       - pose proof (l_iter _ L). fold t in H. lia.
-      - replace (t + 1 - 1) with t by lia. destruct I2 as [A B C D E F].
+      - replace (t + 1 - 1) with t by lia. destruct I2 as [A B C D E F G3].
         constructor; red_st; rewrite ?H2, ?O2 in *; auto.
       - auto.
       - eapply Forall_impl; [|exact G1]. intros a Ha. simpl in *. lia.
@@ -998,6 +1019,50 @@ Section C01.
       + intros (u, a) Ia. simpl. destruct (i_good_h _ _ _ I _ _ Ia) as (_ & E & Lu). lia.
   Qed.
 
+  (* nothing is lost: every given event, and the unplug of every given session, is in event_history *)
+  Lemma final_all_processed (st : state) :
+    LoopInv st -> loop_guard st = false ->
+    (forall e, In e evs -> In (ev_ts e, e) (hist st)) /\
+    (forall x, In x sessions -> In (s_departure x, EUnplug (s_departure x) x) (hist st)) /\
+    (forall u e, In (u, e) (hist st) -> good e /\ u = ev_ts e).
+  Proof.
+    intros L G. destruct (final_props st L G) as (Q & _ & FP & _).
+    pose proof (l_inv _ L) as I. rewrite Q in I.
+    split; [|split].
+    - intros e Ie. pose proof (valid_in _ Ie) as Ve. destruct e as [ts x|ts x|ts]; simpl in Ve.
+      + destruct Ve as (-> & _). simpl.
+        assert (Ix : In x sessions) by (apply in_sessions_of; eauto).
+        destruct (FP x Ix) as (_ & _ & H & _). exact H.
+      + contradiction.
+      + pose proof (i_cons3 _ _ _ I ts) as C. rewrite cnt_nil in C.
+        assert (P : (cnt (is_rec ts) evs > 0)%nat) by (eapply cnt_in_pos; eauto; simpl; apply Z.eqb_refl).
+        assert (P' : (cnt (is_rec ts) (map snd (hist st)) > 0)%nat) by lia.
+        apply cnt_pos_ex in P'. destruct P' as (e & Ie' & Ee).
+        apply in_map_iff in Ie'. destruct Ie' as ((u & e') & E' & Ie'). simpl in E'. subst e'.
+        destruct e as [| |ts']; simpl in Ee; try discriminate. apply Z.eqb_eq in Ee. subst ts'.
+        destruct (i_good_h _ _ _ I _ _ Ie') as (_ & -> & _). exact Ie'.
+    - intros x Ix. destruct (FP x Ix) as (_ & _ & _ & H). exact H.
+    - intros u e Ie. destruct (i_good_h _ _ _ I _ _ Ie) as (A & B & _). auto.
+  Qed.
+
+  (* ... hence the run ends one period after the largest timestamp / departure of the input *)
+  Lemma final_iter_input (st : state) :
+    LoopInv st -> loop_guard st = false -> evs <> [] -> iter st = max_ts evs + 1.
+  Proof.
+    intros L G NE. destruct (final_props st L G) as (_ & _ & _ & FI).
+    destruct (final_all_processed st L G) as (AP & UP & GH).
+    rewrite FI. rewrite (last_ts_max (hist st) (max_ts evs)); [lia| | |pose proof (max_ts_nonneg evs); lia].
+    - destruct (max_ts_attained evs NE) as (e & Ie & Ee).
+      { intros e Ie. pose proof (valid_in _ Ie) as Ve. destruct e; simpl in *; lia. }
+      pose proof (valid_in _ Ie) as Ve. destruct e as [ts x|ts x|ts]; simpl in Ve, Ee.
+      + destruct Ve as (-> & _ & R).
+        assert (Ix : In x sessions) by (apply in_sessions_of; eauto).
+        exists (s_departure x, EUnplug (s_departure x) x). split; [apply UP; auto|]. simpl. lia.
+      + contradiction.
+      + exists (ts, ERecompute ts). split; [apply (AP _ Ie)|]. simpl. lia.
+    - intros (u, e) Ie. simpl. destruct (GH _ _ Ie) as (Ge & _). pose proof (good_bounds _ Ge). lia.
+  Qed.
+
   (* ---- C01, assembled -------------------------------------------------------------------- *)
   Lemma c01_run n0 :
     (exists st, run (fuel_of evs) (init N V evs n0) = Done st /\ LoopInv st /\ loop_guard st = false) \/
@@ -1061,11 +1126,18 @@ Section C01.
   Qed.
 
   Lemma c01_final_iter n0 st : run (fuel_of evs) (init N V evs n0) = Done st ->
-    iter st = 1 + last_ts (hist st).
+    iter st = 1 + last_ts (hist st) /\ (evs <> [] -> iter st = max_ts evs + 1).
   Proof.
     intro R. destruct (c01_done_inv _ _ R) as (L & G).
-    destruct (final_props st L G) as (_ & _ & _ & H). exact H.
+    destruct (final_props st L G) as (_ & _ & _ & H). split; [exact H|].
+    apply final_iter_input; auto.
   Qed.
+
+  Lemma c01_all_processed n0 st : run (fuel_of evs) (init N V evs n0) = Done st ->
+    (forall e, In e evs -> In (ev_ts e, e) (hist st)) /\
+    (forall x, In x sessions -> In (s_departure x, EUnplug (s_departure x) x) (hist st)) /\
+    (forall u e, In (u, e) (hist st) -> good e /\ u = ev_ts e).
+  Proof. intro R. destruct (c01_done_inv _ _ R) as (L & G). apply final_all_processed; auto. Qed.
 End C01.
 
 (* ========================================================================================== *)
@@ -1419,5 +1491,32 @@ Section ValidCalls.
     rewrite EP in EP'. inversion EP'; subst s1'.
     exists s1. split; [exact NV|]. split; [congruence|]. split; [exact HH|].
     intros s0 y. rewrite It in *. eapply occ_char; eauto.
+  Qed.
+  (* "an event occurred in period t", in terms of the input *)
+  Definition occurs_at (t : Z) : Prop :=
+    (exists e, In e evs /\ ev_ts e = t) \/ (exists x, In x (sessions_of evs) /\ s_departure x = t).
+
+  Lemma invoked_iff_valid n0 (st : state) :
+    run (fuel_of evs) (init N V evs n0) = Done st ->
+    forall t, 0 <= t < iter st ->
+      (In t (map fst (calls st)) <->
+       occurs_at t \/
+       (exists k, maxrec = Some k /\
+                  match prev_call (map fst (calls st)) t with None => True | Some l => k <= t - l end)).
+  Proof.
+    intros R t Ht.
+    pose proof (c05_done N V Sch stations maxrec num_view num_apply num_charge num_store sched evs n0 _ st R) as C.
+    pose proof (c_iff _ _ _ _ _ _ _ _ _ _ _ _ C t Ht) as IFF. unfold invoked_spec in IFF.
+    destruct (c01_all_processed N V Sch stations maxrec num_view num_apply num_charge num_store sched evs VALID n0 st R)
+      as (AP & UP & GH).
+    assert (E : (exists e, In (t, e) (hist st)) <-> occurs_at t).
+    { unfold occurs_at. split.
+      - intros (e & Ie). destruct (GH _ _ Ie) as (Ge & Et).
+        destruct e as [ts x|ts x|ts]; simpl in Ge, Et.
+        + left. exists (EPlugin ts x). auto.
+        + right. destruct Ge as (Ix & ->). exists x. auto.
+        + left. exists (ERecompute ts). auto.
+      - intros [(e & Ie & <-)|(x & Ix & <-)]; eexists; [apply AP; eauto|apply UP; eauto]. }
+    rewrite <- E. exact IFF.
   Qed.
 End ValidCalls.
